@@ -27,6 +27,8 @@ The compiler is a typed symbolic executor (a fork of translate/lattice.py, which
     the same order: rendered as the same `ndindex` fold), `for i in range(n)`, `for p in <list of particles>`; a loop
     is a `List.foldlM` whose state is exactly the variables the body changes (found by a trial compilation);
     `continue` ends the body with the current state; `break`, `return` inside a loop, `while`: not in the fragment;
+  * a binary `+` / `*` of two numbers is written with its operands in one canonical order (they commute bit for bit in
+    IEEE arithmetic and on ints), so `a * b` and `b * a` give the same Lean text; nothing is re-associated;
   * numbers: Python ints are `Int`, node counts `Nat`, floats `α`; a float literal is the exact ratio of two naturals
     read off its decimal form (both < 2^53, so the IEEE quotient is the literal); `round(x)` is the parameter
     `pyround : α → Int`, `np.isnan` the parameter `isnan : α → Bool`, `np.linspace` the parameter `lin`;
@@ -228,6 +230,11 @@ def or_(a, b):
     if b == "false":
         return a
     return f"({a} || {b})"
+
+
+def okey(term):
+    """ordering key of an operand: its text without the numbers of temporaries (two temporaries keep source order)"""
+    return re.sub(r"\d+", "#", term)
 
 
 def proj(t, i, n):
@@ -532,7 +539,10 @@ class Tr:
             return Val({"+": a.term + b.term, "-": a.term - b.term, "*": a.term * b.term}[op], "LIT")
         if t == "N" and op == "-":
             t = "I"         # a difference of counts can be negative
-        return Val(f"({co(a, t)} {op} {co(b, t)})", t)
+        x, y = co(a, t), co(b, t)
+        if op in "+*" and okey(y) < okey(x):
+            x, y = y, x     # `+` and `*` of two numbers commute bit for bit (IEEE, ints): one canonical operand order
+        return Val(f"({x} {op} {y})", t)
 
     def cmp1(self, a, op, b):
         if a.ty == "STR" and b.ty == "STR":
